@@ -245,4 +245,80 @@ func checkC18(c *Ctx) {
 		})
 		c.Check(ok, "C18.5", "NodeSet.MarshalJSON: sorted before encoding", p.FuncPos(mj), "the ids collected from the map are sorted before json.Marshal (deterministic output)", "map order leaks into the JSON encoding")
 	}
+	c18FreshDecode(c)
+}
+
+// c18FreshDecode (C18.7): scenarios read from JSON are decoded into fresh values. NodeSet's
+// UnmarshalJSON adds to an existing set and encoding/json re-uses existing slice elements
+// and maps, so decoding into a value that already holds an earlier scenario merges the two.
+// Every json.Unmarshal / Decoder.Decode in package twins must therefore decode into a local
+// variable that has not been written before, and must not be inside a loop that re-uses it.
+func c18FreshDecode(c *Ctx) {
+	p := c.P
+	n := 0
+	for _, fn := range p.ModFuncs {
+		if funcPkgPath(fn) != modPath+"/twins" || strings.HasSuffix(p.FuncPos(fn), "_test.go") {
+			continue
+		}
+		eachInstr(fn, func(in ssa.Instruction) {
+			call, ok := in.(*ssa.Call)
+			if !ok || call.Call.StaticCallee() == nil {
+				return
+			}
+			var dst ssa.Value
+			switch call.Call.StaticCallee().String() {
+			case "encoding/json.Unmarshal":
+				dst = call.Call.Args[1]
+			case "(*encoding/json.Decoder).Decode":
+				dst = call.Call.Args[1]
+			default:
+				return
+			}
+			n++
+			if mi, ok := dst.(*ssa.MakeInterface); ok {
+				dst = mi.X
+			}
+			al, isAlloc := dst.(*ssa.Alloc)
+			reason := ""
+			switch {
+			case !isAlloc:
+				reason = "the destination " + NewKeyer(p, fn).Key(dst) + " is not a fresh local variable (a field or buffer that survives the call keeps the previous scenario's partitions, which the decoder merges into)"
+			default:
+				// no store into the local other than its zero value, and the decode is not repeated on the same local
+				storedInto(al, func(sv ssa.Value) bool {
+					reason = "the local destination is written before decoding"
+					return true
+				})
+				if reason == "" && inLoop(call.Block()) && !inLoop(al.Block()) {
+					reason = "the local destination is declared outside the loop that decodes into it"
+				}
+			}
+			c.Check(reason == "", "C18.7", shortName(fn)+": JSON is decoded into a fresh value", p.InstrPos(in),
+				"destination is a local variable holding its zero value", reason)
+		})
+	}
+	if n < 3 {
+		c.Unresolved("C18.7", "twins JSON decoding", "expected the three decode sites (FromJSON, twinsJSON.NextScenario, NodeSet.UnmarshalJSON); found "+itoa(n))
+	}
+}
+
+// inLoop reports whether block b lies on a CFG cycle.
+func inLoop(b *ssa.BasicBlock) bool {
+	seen := map[*ssa.BasicBlock]bool{}
+	var walk func(x *ssa.BasicBlock) bool
+	walk = func(x *ssa.BasicBlock) bool {
+		for _, s := range x.Succs {
+			if s == b {
+				return true
+			}
+			if !seen[s] {
+				seen[s] = true
+				if walk(s) {
+					return true
+				}
+			}
+		}
+		return false
+	}
+	return walk(b)
 }
